@@ -16,6 +16,7 @@ import (
 	"gvh/internal/rng"
 	"gvh/internal/scratch"
 	"gvh/internal/sx"
+	"gvh/internal/tygen"
 )
 
 func init() { campaigns["C01"] = runC01 }
@@ -122,7 +123,7 @@ var buildClasses = []struct {
 }
 
 func runC01(e *env) error {
-	e.rep.Rule = "cases = (a) random operation sequences (Name with bases from a pool of the identifiers goverter itself uses, Index, Map, Register) on namer.Namer vs Gv.Namer; (b) projects stressing names and layout: the user's package named like identifiers the generated code uses (source, target, context, c, i, key, value, err, fmt, errors, …), 1-37 nested slice levels (index variables i..z, i2..), double pointers, nested maps, recursive types, unexported fields, the three output formats and custom struct names; the goverter binary is run, then assertion files are added (var _ pkg.Conv = &Impl{}, function signatures, variables non-nil after init) and the whole module is compiled with `go build ./...`; (c) pinned cases for the defect classes seen while reading; (d) the converter families of the other campaigns (custom functions incl. T->T and converted map keys, default constructors over the pointer shapes, update methods, field mappings, enums across packages, source-struct methods) generated in process and compiled as one module. A successful run whose output does not compile or does not implement the declared API is a violation. non-trivial = every case; distinct = project text"
+	e.rep.Rule = "cases = (a) random operation sequences (Name with bases from a pool of the identifiers goverter itself uses, Index, Map, Register) on namer.Namer vs Gv.Namer; (b) projects stressing names and layout: the user's package named like identifiers the generated code uses (source, target, context, c, i, key, value, err, fmt, errors, …), 1-37 nested slice levels (index variables i..z, i2..), double pointers, nested maps, recursive types, unexported fields, the three output formats and custom struct names; the goverter binary is run, then assertion files are added (var _ pkg.Conv = &Impl{}, function signatures, variables non-nil after init) and the whole module is compiled with `go build ./...`; (c) pinned cases for the defect classes seen while reading; (d) the converter families of the other campaigns (custom functions incl. T->T and converted map keys, default constructors over the pointer shapes, update methods, field mappings, enums across packages, source-struct methods) generated in process and compiled as one module; (e) random structural converters including empty structs (distinct named ones pinned), arrays, named-vs-literal pairs, with skipCopySameType / useZeroValueOnPointerInconsistency, generated and compiled. A successful run whose output does not compile or does not implement the declared API is a violation. non-trivial = every case; distinct = project text"
 	r := e.r.Fork(1)
 	// (a) namer
 	nSeq := 3000
@@ -269,5 +270,62 @@ func runC01(e *env) error {
 			"broken": "C01: goverter reported success for every converter of the batch but the emitted code does not compile"}, false)
 	}
 	e.rep.Note("family converters generated and compiled together: %d", res.Generated)
+	// (e) random structural converters INCLUDING empty structs (named and unnamed), arrays and named/literal pairs,
+	// generated and compiled only (zero-size types cannot be executed by the address-labelling executor)
+	nb, pb := 1, 150
+	if e.thorough {
+		nb, pb = 2*e.scale, 300
+	}
+	var sb []*k2Batch
+	for b := 0; b < nb; b++ {
+		g := tygen.New(e.r.Fork(uint64(5000 + b)))
+		g.AllowArray = true
+		kb := &k2Batch{Tag: "structural-compile", Convs: map[string]string{}, ValModes: 0}
+		rr := e.r.Fork(uint64(6000 + b))
+		// pinned: distinct named empty structs, named vs unnamed empty struct, nested
+		g.Decls = append(g.Decls, &tygen.Decl{Name: "EmpA", Under: tygen.Raw{Text: "struct{}"}}, &tygen.Decl{Name: "EmpB", Under: tygen.Raw{Text: "struct{}"}},
+			&tygen.Decl{Name: "EmpBoxA", Under: tygen.Raw{Text: "struct { E EmpA; P *EmpA; L []EmpA; M map[string]EmpA; U struct{} }"}},
+			&tygen.Decl{Name: "EmpBoxB", Under: tygen.Raw{Text: "struct { E EmpB; P *EmpB; L []EmpB; M map[string]EmpB; U struct{} }"}})
+		pinned := [][2]string{{"EmpA", "EmpB"}, {"EmpA", "EmpA"}, {"EmpA", "struct{}"}, {"struct{}", "EmpB"}, {"EmpBoxA", "EmpBoxB"}, {"[]EmpA", "[]EmpB"}, {"*EmpA", "*EmpB"}, {"map[EmpA]int", "map[EmpB]int"}}
+		for i := 0; i < pb; i++ {
+			var s, t string
+			if i < len(pinned) {
+				s, t = pinned[i][0], pinned[i][1]
+			} else {
+				st := g.Type(1 + rr.Intn(3))
+				tt := g.Mirror(st, tygen.MirrorOpts{PtrFlip: 10, ArrayFlip: 10, Literal: 12}, 0)
+				s, t = st.Src(), tt.Src()
+			}
+			name := fmt.Sprintf("SC%d", i)
+			src := "// goverter:converter\n"
+			if rr.Chance(25) {
+				src += "// goverter:skipCopySameType\n"
+			}
+			if rr.Chance(25) {
+				src += "// goverter:useZeroValueOnPointerInconsistency\n"
+			}
+			kb.Convs[name] = src + "type " + name + " interface {\n\tConvert(source " + s + ") " + t + "\n}\n\n"
+			kb.Order = append(kb.Order, name)
+		}
+		kb.Types = g.Source()
+		sb = append(sb, kb)
+	}
+	res2, err := runK2(e, "c01str", sb)
+	if err != nil {
+		return err
+	}
+	e.rep.Eval(res2.Generated)
+	for _, be := range res2.BuildErrors {
+		class := ""
+		for _, bc := range buildClasses {
+			if bc.re.MatchString(be) {
+				class = bc.class
+				break
+			}
+		}
+		e.rep.Violation(class, map[string]any{"compiler_output": truncate(be, 3000),
+			"broken": "C01: goverter reported success for every converter of the batch but the emitted code does not compile"}, false)
+	}
+	e.rep.Note("structural converters (incl. empty structs) generated and compiled together: %d", res2.Generated)
 	return nil
 }
